@@ -1,5 +1,6 @@
 import SigModel.Model.Alert
 import SigModel.Model.AlertJob
+import SigModel.Model.AlertSet
 import Oracle.Util
 /- suite "alert": alert <window> <interval> <cooldown> <silence> <op> <op> ...
      op ::= e1 | e0   evaluation, condition matched / not matched, webhook reachable
@@ -99,9 +100,58 @@ def alertjob (args : List String) : String :=
     | _, _, _, _ => "bad-op"
   | _ => "bad-op"
 
+/- suite "alertjob", second line kind: ajs <op> <op> ...     (Model/AlertSet.lean; alerts numbered by create attempt)
+     op ::= c<w>/<i>       create a Logs alert, EvalWindow w, EvalInterval i
+          | k<type>        create with window 1, interval 1 and alert_type <type> (not 2: a Metrics alert needs a query)
+          | u<k>:<w>/<i>   update alert k        | d<k>  delete alert k
+          | z<k> | y<k>    the row of alert k is rewritten behind the API to interval 0 / to alert_type 0
+          | R              restart
+   → per op  <ok|ref|->|<stored rows k:w/i:type,…>|<job tags, ascending, one per job> -/
+def parseSetOp (s : String) : Option SigModel.AlertSet.Op :=
+  let rest := (s.drop 1).toString
+  let pair (t : String) : Option (Nat × Nat) :=
+    match t.splitOn "/" with
+    | [a, b] => match a.toNat?, b.toNat? with
+      | some a, some b => some (a, b)
+      | _, _ => none
+    | _ => none
+  if s = "R" then some .restart
+  else if s.startsWith "c" then (pair rest).map (fun p => .create p.1 p.2)
+  else if s.startsWith "k" then rest.toNat?.bind (fun t => if t = 2 then none else some (.createTyped t))
+  else if s.startsWith "d" then rest.toNat?.map .delete
+  else if s.startsWith "z" then rest.toNat?.map .legacyInterval
+  else if s.startsWith "y" then rest.toNat?.map .legacyType
+  else if s.startsWith "u" then
+    match rest.splitOn ":" with
+    | [k, d] => match k.toNat?, pair d with
+      | some k, some p => some (.edit k p.1 p.2)
+      | _, _ => none
+    | _ => none
+  else none
+
+def insertSorted (x : Nat) : List Nat → List Nat
+  | [] => [x]
+  | y :: r => if x ≤ y then x :: y :: r else y :: insertSorted x r
+
+def alertset (args : List String) : String :=
+  match args.mapM parseSetOp with
+  | none => "bad-op"
+  | some ops =>
+    let rec go (s : SigModel.AlertSet.St) (ops : List SigModel.AlertSet.Op) (acc : List String) : List String :=
+      match ops with
+      | [] => acc.reverse
+      | op :: r =>
+        let (s', a) := SigModel.AlertSet.step s op
+        let ans := match a with | .ok => "ok" | .refused => "ref" | .none => "-"
+        let rows := String.intercalate "," (s'.rows.map (fun x => s!"{x.idx}:{x.window}/{x.interval}:{x.type}"))
+        let jobs := String.intercalate "," ((s'.jobs.foldl (fun l j => insertSorted j l) []).map toString)
+        go s' r (s!"{ans}|{rows}|{jobs}" :: acc)
+    if ops.isEmpty then "bad-op" else String.intercalate " " (go SigModel.AlertSet.init ops [])
+
 def handle (cmd : String) (args : List String) : Option String :=
   match cmd with
   | "alert" => some (alert args)
   | "aj" => some (alertjob args)
+  | "ajs" => some (alertset args)
   | _ => none
 end Oracle.C20
